@@ -1,14 +1,22 @@
 /-
-  C06: partial evaluation — `internal/eval/partial.go`, mirrored INCLUDING its defects.
+  C06: partial evaluation — `internal/eval/partial.go` (as repaired: see "history" below).
 
   Go's `partial(env, n)` returns `(node, err)` with `err ∈ {nil, errVariable, errIgnore, other}`; that is `PR`.
-  Note what travels with `errVariable`: `tryPartial` returns `mkNode(nodes)` — the operator rebuilt over its
-  *partially evaluated* children, e.g. `{key: __cedar::variable::"k"}.key` for `context.key` — and
-    * `tryPartial` (as a caller) and `PartialPolicy` discard that node and keep the ORIGINAL sub-expression,
-    * `partialAnd` / `partialOr` / `partialIfThenElse` keep it (the stale-residual defect).
-  A value that merely CONTAINS an unknown (a set / record with a variable entity inside) is an ordinary
-  `NodeValue` for `tryPartial`, so every operator is evaluated over it (the tainted-container defect).
-  `e is T in r` is handled as a strict binary operator although its evaluator short-circuits (isIn defect).
+  What travels with `errVariable` is `mkNode(nodes)` — the operator rebuilt over its *partially evaluated* children,
+  e.g. `{key: __cedar::variable::"k"}.key` for `context.key`; every consumer (`tryPartial`, `PartialPolicy`,
+  `partialAnd` / `partialOr` / `partialIfThenElse` / `partialIsIn`) discards that node and keeps the ORIGINAL
+  sub-expression.
+  A value that merely CONTAINS an unknown (a set / record with a variable entity inside) is looked into by attribute
+  access and `has` only (`tryPartialOperands` with `lookInside`); for every other operator, and wherever a node is
+  embedded in a residual, it is as unknown as the variable itself (`PR.whole`) and the original sub-expression is kept.
+  `e is T in r` follows `isInEval`: the right-hand side is strict only once the type test is known to pass
+  (`isInStep`).
+
+  History: this file mirrored four defect families of partial.go until they were repaired
+  (`stale-residual-and|or|if`: `partialAnd/Or/IfThenElse` kept the node returned with `errVariable`;
+  `tainted-container-*` / `tainted-record-*`: every operator was evaluated over values that merely contain an unknown;
+  `isin-eager-rhs-error`: `is … in` was a strict binary operator).  The former counterexamples are regression
+  examples in `CedarGoProofs/Properties/C06.lean`.
 
   Unknowns are the entity `__cedar::variable::"name"`, ignored parts the entity `__cedar::ignore::""`.
   Error messages are not modelled: `extError` carries the empty string.
@@ -34,6 +42,21 @@ def Value.isIgnore : Value → Bool
   | .entity ty _ => ty == ignoreEntityType
   | _ => false
 
+mutual
+/-- `containsVariable`: the value is, or contains (inside records / sets, at any depth), an unknown (any name) -/
+def Value.hasUnknown : Value → Bool
+  | .entity ty _ => ty == variableEntityType
+  | .record kvs => Value.hasUnknownKVs kvs
+  | .set xs => Value.hasUnknownList xs
+  | _ => false
+def Value.hasUnknownKVs : List (String × Value) → Bool
+  | [] => false
+  | (_, x) :: rest => Value.hasUnknown x || Value.hasUnknownKVs rest
+def Value.hasUnknownList : List Value → Bool
+  | [] => false
+  | x :: xs => Value.hasUnknown x || Value.hasUnknownList xs
+end
+
 /-- result of `partial`: `(node, nil)`, `(node, errVariable)`, `(nil, errIgnore)`, `(nil, err)` -/
 inductive PR where
   | ok (e : Expr)
@@ -48,6 +71,13 @@ inductive EvR where
   | ign
   | err (e : Err)
 deriving Repr, Inhabited
+
+/-- `isValueWithVariable`: for every consumer other than attribute access / `has`, a literal that contains an unknown
+    is as unknown as the variable itself — it is treated exactly like `(node, errVariable)`: the ORIGINAL
+    sub-expression is kept -/
+def PR.whole : PR → PR
+  | .ok (.lit v) => if v.hasUnknown then .var (.lit v) else .ok (.lit v)
+  | p => p
 
 /-- `extError(err)` (message not modelled) -/
 def extError : Expr := .call partialErrorName [.lit (.str "")]
@@ -81,7 +111,8 @@ def finishVal (node : Expr) (r : EvR) : PR :=
   | .ign => .ign
   | .val v => if v.isVariable then .var node else if v.isIgnore then .ign else .ok (.lit v)
 
-/-- `tryPartial` with one child -/
+/-- `tryPartialOperands` with one child.  The caller passes `p.whole` unless the operator looks inside its operand
+    (`lookInside`: attribute access and `has`) -/
 def combine1 (orig : Expr) (p : PR) (mk : Expr → Expr) (ev : Expr → EvR) : PR :=
   match p with
   | .err e => .err e
@@ -89,7 +120,8 @@ def combine1 (orig : Expr) (p : PR) (mk : Expr → Expr) (ev : Expr → EvR) : P
   | .var _ => .ok (mk orig)                       -- errVariable: the ORIGINAL child is kept
   | .ok e' => if e'.isLit then finishVal (mk e') (ev (mk e')) else .ok (mk e')
 
-/-- `tryPartial` with two children (children are processed left to right; the first error wins) -/
+/-- `tryPartial` with two children (children are processed left to right; the first error wins); the caller passes
+    `p1.whole`, `p2.whole` -/
 def combine2 (l r : Expr) (p1 p2 : PR) (mk : Expr → Expr → Expr) (ev : Expr → EvR) : PR :=
   match p1 with
   | .err e => .err e
@@ -132,69 +164,85 @@ def finishList (r : LoopR) (mk : List Expr → Expr) (ev : Expr → EvR) : PR :=
   | .done ns true => finishVal (mk ns) (ev (mk ns))
   | .done ns false => .ok (mk ns)
 
-/-- the part of `partialAnd` after the left operand has been looked at -/
-def andRest (left : Expr) (pr : PR) : PR :=
-  match pr with
+/-- the part of `partialAnd` / `partialOr` after the left operand has been looked at: `left` is what stands for the
+    left operand in the residual, `r` the ORIGINAL right operand -/
+def scRest (op : BinOp) (left r : Expr) (pr : PR) : PR :=
+  match pr.whole with
   | .ign => .ign
-  | .err _ => .ok (.binop .and left extError)
-  | .var stale => .ok (.binop .and left stale)        -- DEFECT: the stale node, not the original operand
-  | .ok r' => .ok (.binop .and left r')
+  | .err _ => .ok (.binop op left extError)
+  | .var _ => .ok (.binop op left r)                  -- errVariable (or a value containing an unknown): the original
+  | .ok r' => .ok (.binop op left r')
 
-def orRest (left : Expr) (pr : PR) : PR :=
-  match pr with
-  | .ign => .ign
-  | .err _ => .ok (.binop .or left extError)
-  | .var stale => .ok (.binop .or left stale)
-  | .ok r' => .ok (.binop .or left r')
-
-/-- `partialAnd` given the results for both operands -/
-def andStep (env : Env) (r : Expr) (pl pr : PR) : PR :=
+/-- `partialAnd` given the results for both operands (`l`, `r`: the original operands) -/
+def andStep (env : Env) (l r : Expr) (pl pr : PR) : PR :=
   match pl with
   | .err e => .err e
   | .ign => .ign
-  | .var stale => andRest stale pr                    -- DEFECT: `left` is the stale node
+  | .var _ => scRest .and l r pr                      -- errVariable: the ORIGINAL left operand is kept
   | .ok (.lit (.bool false)) => .ok (.lit (.bool false))
   | .ok (.lit (.bool true)) =>
-      combine2 (.lit (.bool true)) r (.ok (.lit (.bool true))) pr (.binop .and) (evalR · env)
+      combine2 (.lit (.bool true)) r (.ok (.lit (.bool true))) pr.whole (.binop .and) (evalR · env)
   | .ok (.lit _) => .err .type
-  | .ok l' => andRest l' pr
+  | .ok l' => scRest .and l' r pr
 
-def orStep (env : Env) (r : Expr) (pl pr : PR) : PR :=
+def orStep (env : Env) (l r : Expr) (pl pr : PR) : PR :=
   match pl with
   | .err e => .err e
   | .ign => .ign
-  | .var stale => orRest stale pr
+  | .var _ => scRest .or l r pr
   | .ok (.lit (.bool true)) => .ok (.lit (.bool true))
   | .ok (.lit (.bool false)) =>
-      combine2 (.lit (.bool false)) r (.ok (.lit (.bool false))) pr (.binop .or) (evalR · env)
+      combine2 (.lit (.bool false)) r (.ok (.lit (.bool false))) pr.whole (.binop .or) (evalR · env)
   | .ok (.lit _) => .err .type
-  | .ok l' => orRest l' pr
+  | .ok l' => scRest .or l' r pr
 
-/-- a branch of `partialIfThenElse`: `none` = errIgnore escapes -/
-def branchNode (p : PR) : Option Expr :=
-  match p with
+/-- a branch of `partialIfThenElse` (`orig`: the original branch): `none` = errIgnore escapes -/
+def branchNode (orig : Expr) (p : PR) : Option Expr :=
+  match p.whole with
   | .ign => none
   | .err _ => some extError
-  | .var stale => some stale                          -- DEFECT
+  | .var _ => some orig
   | .ok e => some e
 
-def iteRest (c : Expr) (pt pe : PR) : PR :=
-  match branchNode pt with
+def iteRest (c t e : Expr) (pt pe : PR) : PR :=
+  match branchNode t pt with
   | none => .ign
   | some t' =>
-    match branchNode pe with
+    match branchNode e pe with
     | none => .ign
     | some e' => .ok (.ite c t' e')
 
-def iteStep (pc pt pe : PR) : PR :=
+/-- `partialIfThenElse` (`c`, `t`, `e`: the original sub-expressions) -/
+def iteStep (c t e : Expr) (pc pt pe : PR) : PR :=
   match pc with
   | .err e => .err e
   | .ign => .ign
-  | .var stale => iteRest stale pt pe                 -- DEFECT
+  | .var _ => iteRest c t e pt pe
   | .ok (.lit (.bool true)) => pt                     -- `return partial(env, v.Then)`: passes (node, err) through
   | .ok (.lit (.bool false)) => pe
   | .ok (.lit _) => .err .type
-  | .ok c' => iteRest c' pt pe
+  | .ok c' => iteRest c' t e pt pe
+
+/-- the tail of `partialIsIn` while the type test is undecided: an error of the right-hand side stays in the residual -/
+def isInRest (left : Expr) (ty : String) (r : Expr) (pr : PR) : PR :=
+  match pr.whole with
+  | .ign => .ign
+  | .err _ => .ok (.isIn left ty extError)
+  | .var _ => .ok (.isIn left ty r)
+  | .ok r' => .ok (.isIn left ty r')
+
+/-- `partialIsIn` (`l`, `r`: the original operands): a literal left operand decides the type test
+    (`ValueToEntity`, then the type comparison); only when it passes is the operator strict in `r` -/
+def isInStep (env : Env) (ty : String) (l r : Expr) (pl pr : PR) : PR :=
+  match pl with
+  | .err e => .err e
+  | .ign => .ign
+  | .var _ => isInRest l ty r pr
+  | .ok (.lit (.entity ty' id)) =>
+      if ty' != ty then .ok (.lit (.bool false))
+      else combine2 (.lit (.entity ty' id)) r (PR.ok (.lit (.entity ty' id))).whole pr.whole (.isIn · ty ·) (evalR · env)
+  | .ok (.lit _) => .err .type
+  | .ok l' => isInRest l' ty r pr
 
 def rebuildKVs : List (String × Expr) → List Expr → List (String × Expr)
   | (k, _) :: kes, n :: ns => (k, n) :: rebuildKVs kes ns
@@ -205,27 +253,27 @@ mutual
 def partialE (env : Env) : Expr → PR
   | .lit v => .ok (.lit v)
   | .var x => finishVal (.var x) (evalR (.var x) env)
-  | .unop op e => combine1 e (partialE env e) (.unop op) (evalR · env)
-  | .binop .and l r => andStep env r (partialE env l) (partialE env r)
-  | .binop .or l r => orStep env r (partialE env l) (partialE env r)
-  | .binop op l r => combine2 l r (partialE env l) (partialE env r) (.binop op) (evalR · env)
-  | .ite c t e => iteStep (partialE env c) (partialE env t) (partialE env e)
-  | .access e a => combine1 e (partialE env e) (.access · a) (evalR · env)
+  | .unop op e => combine1 e (partialE env e).whole (.unop op) (evalR · env)
+  | .binop .and l r => andStep env l r (partialE env l) (partialE env r)
+  | .binop .or l r => orStep env l r (partialE env l) (partialE env r)
+  | .binop op l r => combine2 l r (partialE env l).whole (partialE env r).whole (.binop op) (evalR · env)
+  | .ite c t e => iteStep c t e (partialE env c) (partialE env t) (partialE env e)
+  | .access e a => combine1 e (partialE env e) (.access · a) (evalR · env)                -- lookInside
   | .has e a =>
-      combine1 e (partialE env e) (.has · a)
+      combine1 e (partialE env e) (.has · a)                                               -- lookInside
         (fun n => match n with | .has (.lit v) _ => hasStep env v a | _ => .err .panic)
-  | .like e p => combine1 e (partialE env e) (.like · p) (evalR · env)
-  | .is e ty => combine1 e (partialE env e) (.is · ty) (evalR · env)
-  | .isIn e ty r => combine2 e r (partialE env e) (partialE env r) (.isIn · ty ·) (evalR · env)   -- DEFECT: strict in `r`
+  | .like e p => combine1 e (partialE env e).whole (.like · p) (evalR · env)
+  | .is e ty => combine1 e (partialE env e).whole (.is · ty) (evalR · env)
+  | .isIn e ty r => isInStep env ty e r (partialE env e) (partialE env r)
   | .set es => finishList (partialList env es) .set (evalR · env)
   | .record kes => finishList (partialKVs env kes) (fun ns => .record (rebuildKVs kes ns)) (evalR · env)
   | .call fn args => finishList (partialList env args) (.call fn) (evalR · env)
 def partialList (env : Env) : List Expr → LoopR
   | [] => .done [] true
-  | e :: es => consR e (partialE env e) (partialList env es)
+  | e :: es => consR e (partialE env e).whole (partialList env es)
 def partialKVs (env : Env) : List (String × Expr) → LoopR
   | [] => .done [] true
-  | (_, e) :: kes => consR e (partialE env e) (partialKVs env kes)
+  | (_, e) :: kes => consR e (partialE env e).whole (partialKVs env kes)
 end
 
 /-- the `switch t := in.(type)` of `partialScopeEval` for a known entity -/
@@ -304,11 +352,11 @@ end
 
 mutual
 /-- full simultaneous substitution of every unknown by its completion (`types.NewSet` re-deduplicates a
-    set that contained an unknown) -/
+    set that contained an unknown; a set without unknowns is left alone) -/
 def Value.substAll (σ : String → Value) : Value → Value
   | .entity ty id => if ty == variableEntityType then σ id else .entity ty id
   | .record kvs => .record (Value.substAllKVs σ kvs)
-  | .set xs => if Value.hasMarkerList xs then mkSet (Value.substAllList σ xs) else .set xs
+  | .set xs => if Value.hasUnknownList xs then mkSet (Value.substAllList σ xs) else .set xs
   | .bool b => .bool b
   | .long n => .long n
   | .str s => .str s
@@ -324,89 +372,21 @@ def Value.substAllList (σ : String → Value) : List Value → List Value
   | x :: xs => Value.substAll σ x :: Value.substAllList σ xs
 end
 
-/-! ## the proved domain (decidable; an instrumented copy of `partialE`)
+/-! ## the premise of the keep / drop statements (decidable)
 
-  `domE env e` holds when, along the partial evaluation of `e` against `env`,
-    * (NoTaintedWholeUse) every operator other than attribute access / `has` only consumes literal operands that are
-      marker-free — a set or record that merely contains an unknown is never compared, searched, embedded, …;
-      literals written in the policy are marker-free;
-    * (NoVariableOperandOfShortCircuit) no operand of `&&`, `||`, `if` reports `errVariable` in a position where
-      the code keeps the node returned with it;
-    * (is-in guard) an erroring right operand of `e is T in r` only occurs when `e` is known to be of type `T`
-      (or `e` itself fails).
-  These are exactly the three defect families; outside the domain the `_counterexample` theorems apply. -/
-
-/-- a literal result consumed by a non-access operator must be marker-free -/
-def PR.cleanLit : PR → Bool
-  | .ok (.lit v) => !v.hasMarker
-  | _ => true
-
-def PR.notVar : PR → Bool
-  | .var _ => false
-  | _ => true
-
-def PR.isLitR : PR → Bool
-  | .ok (.lit _) => true
-  | _ => false
-
-/-- `&&` / `||`: operands as the code uses them -/
-def scDom (pl pr : PR) : Bool :=
-  pl.notVar && pl.cleanLit && (if pl.isLitR then pr.cleanLit else pr.notVar && pr.cleanLit)
-
-def iteDom (pc pt pe : PR) : Bool :=
-  pc.notVar && pc.cleanLit &&
-    (if pc.isLitR then true
-     else match pc with
-       | .ok _ => pt.notVar && pt.cleanLit && pe.notVar && pe.cleanLit
-       | _ => true)
-
-def isInGuard (ty : String) (pe pr : PR) : Bool :=
-  match pr with
-  | .err _ =>
-    (match pe with
-     | .err _ => true
-     | .ign => true
-     | .ok (.lit (.entity ty' _)) => ty' == ty
-     | _ => false)
-  | _ => true
-
-mutual
-def domE (env : Env) : Expr → Bool
-  | .lit v => !v.hasMarker
-  | .var _ => true
-  | .unop _ e => domE env e && (partialE env e).cleanLit
-  | .binop .and l r => domE env l && domE env r && scDom (partialE env l) (partialE env r)
-  | .binop .or l r => domE env l && domE env r && scDom (partialE env l) (partialE env r)
-  | .binop _ l r => domE env l && domE env r && (partialE env l).cleanLit && (partialE env r).cleanLit
-  | .ite c t e => domE env c && domE env t && domE env e && iteDom (partialE env c) (partialE env t) (partialE env e)
-  | .access e _ => domE env e
-  | .has e _ => domE env e
-  | .like e _ => domE env e && (partialE env e).cleanLit
-  | .is e _ => domE env e && (partialE env e).cleanLit
-  | .isIn e ty r =>
-      domE env e && domE env r && (partialE env e).cleanLit && (partialE env r).cleanLit
-        && isInGuard ty (partialE env e) (partialE env r)
-  | .set es => domList env es
-  | .record kes => domKVs env kes
-  | .call _ args => domList env args
-def domList (env : Env) : List Expr → Bool
-  | [] => true
-  | e :: es => domE env e && (partialE env e).cleanLit && domList env es
-def domKVs (env : Env) : List (String × Expr) → Bool
-  | [] => true
-  | (_, e) :: kes => domE env e && (partialE env e).cleanLit && domKVs env kes
-end
+  Since the repairs the expression-level soundness theorem (`C06_partialE_sound`) needs NO hypothesis on the expression or
+  the environment.  What remains at policy level is the property's own premise: keep / drop soundness is claimed for
+  environments with UNKNOWNS; ignore markers only promise widening (`C06_partial_ignore_widens_partial`). -/
 
 def PR.notIgn : PR → Bool
   | .ign => false
   | _ => true
 
-/-- the policy-level domain: no ignore markers among the request parts, every condition in `domE`, no
-    condition whose partial evaluation reports `errIgnore`, and no condition that folds to a literal which
-    merely contains an unknown -/
+/-- no ignore marker is met: no request part is ignored and no condition's partial evaluation reports `errIgnore`
+    (an ignore marker nested inside the context or an entity's attributes) -/
 def partialDomain (env : Env) (p : Policy) : Bool :=
   !env.principal.isIgnore && !env.action.isIgnore && !env.resource.isIgnore &&
-    p.conditions.all fun c => domE env c.2 && (partialE env c.2).notIgn && (partialE env c.2).cleanLit
+    p.conditions.all fun c => (partialE env c.2).notIgn
 
 /-- the completed environment: unknowns in the four request parts replaced; the store is untouched -/
 def completeEnv (σ : String → Value) (env : Env) : Env :=
@@ -424,9 +404,5 @@ def completeEnvI (σ : String → Value) (ι : Var → Value) (env : Env) : Env 
     action := if env.action.isIgnore then ι .action else env.action.substAll σ
     resource := if env.resource.isIgnore then ι .resource else env.resource.substAll σ
     context := if env.context.isIgnore then ι .context else env.context.substAll σ }
-
-/-- the domain for environments with ignored parts: as `partialDomain`, but ignore markers and `errIgnore` are allowed -/
-def partialDomainI (env : Env) (p : Policy) : Bool :=
-  p.conditions.all fun c => domE env c.2 && (partialE env c.2).cleanLit
 
 end CedarGo
